@@ -36,6 +36,16 @@ fn real_main() -> i32 {
         sv::eng::cleanup_scratch();
         return if out["verdict"] == "violated" { 1 } else { 0 };
     }
+    if args[1] == "run-case" {
+        // child of the C18 monitor: fresh process = fresh hash seeds
+        let Some(path) = args.get(2) else { return 2; };
+        let Ok(text) = std::fs::read_to_string(path) else { return 2; };
+        let Ok(case) = serde_json::from_str::<J>(&text) else { return 2; };
+        println!("#canary {}", sv::monitors::c18::canary());
+        println!("{}", sv::monitors::c18::run_case_to_string(&case, "child"));
+        sv::eng::cleanup_scratch();
+        return 0;
+    }
     let id = args[1].clone();
     let Some(mon) = sv::monitors::by_id(&id) else { eprintln!("unknown property {:?}", id); return 2; };
     let seed: u64 = arg(&args, "--seed").and_then(|s| s.parse().ok()).unwrap_or(1);
